@@ -94,6 +94,21 @@ def run_life(case):
         s = env.s
         cf, rec = cfharness.make_cf(env)
         tables_ok = []
+        if case.get('dup') is not None:
+            # the k-th reply of the session arrives a second time a little later (answer to a retransmission that was already
+            # on its way when the first answer came in)
+            dcount = {'n': 0}
+
+            def dupfilt(lnk, req, reps):
+                res = []
+                for r in reps:
+                    j = dcount['n']
+                    dcount['n'] += 1
+                    res.append((r, None, None))
+                    if j == case['dup']['k']:
+                        res.append((r, 0.001 + case['dup']['extra'], None))
+                return res
+            env.world.reply_filter = dupfilt
 
         def on_connected(uri):
             lbl = 'attempt %d' % len([1 for e in rec.names() if e == 'connection_requested'])
@@ -236,6 +251,10 @@ def run_life(case):
     if race['error'] or race['close']:
         out.feat('race-link-down-while-dispatching')
     out.nontrivial = inside or after_connected
+    if case.get('dup') is not None:
+        hit = dcount['n'] > case['dup']['k']
+        out.nontrivial = hit
+        out.feat('duplicated-handshake-reply' if hit else 'duplicate-index-beyond-handshake')
     out.feat('fault-inside-handshake' if inside else 'no-inside', 'fault-after-connected' if after_connected else 'no-after-connected',
              'attempts-%d' % len(case['attempts']), 'sync' if any(a.get('sync') for a in case['attempts']) else 'plain',
              'resending' if case['needs_resending'] else 'reliable')
@@ -273,8 +292,18 @@ def sweep_cases(tier):
                            'schedule': {'prefix': [], 'seed': k, 'rate': 0.0 if k % 2 else 0.2}}
 
 
+def dup_sweep_cases(tier):
+    """healthy connection; every reply of the handshake in turn is delivered twice, the copy 0.5 .. 3.5 ms after the original"""
+    for (nlog, nparam, mems, version) in ((2, 3, [1], 10), (1, 2, [], 3), (0, 0, [], 10)):
+        for k in range(0, 40):
+            for extra in (0.0005, 0.0015, 0.0035):
+                yield {'nlog': nlog, 'nparam': nparam, 'mems': mems, 'version': version, 'needs_resending': True, 'delays': [0.001],
+                       'attempts': [], 'dup': {'k': k, 'extra': extra}, 'schedule': {'prefix': [], 'seed': k, 'rate': 0.0}}
+
+
 def subchecks(tier):
     return [
         Sub('histories', run_life, strategy=life_case(), examples={'quick': 160, 'thorough': 8000}),
         Sub('fault-sweep', run_life, cases=sweep_cases, distinct_by_construction=True),
+        Sub('duplicate-sweep', run_life, cases=dup_sweep_cases, distinct_by_construction=True),
     ]
